@@ -204,6 +204,14 @@ func (c *SessionCache) LookupNonExpired(id string) (*SessionEntry, bool) {
 	if entry.IsExpired() {
 		// Remove expired session
 		delete(c.sessions, id)
+		// ... and every command mapping to it, as Invalidate does. Left behind,
+		// they would route the old {tag,addr,<cmd>} lookups to whatever session
+		// is later stored under the same id.
+		for key, sessID := range c.commandMap {
+			if sessID == id {
+				delete(c.commandMap, key)
+			}
+		}
 		return nil, false
 	}
 
